@@ -108,7 +108,7 @@ func checkCompositeLiteral(
 
 	typeName := named.Obj().Name()
 	pkg := named.Obj().Pkg()
-	if pkg == nil {
+	if pkg == nil || !util.IsPackageLevelType(named) {
 		return nil
 	}
 
@@ -168,7 +168,7 @@ func checkNewCall(
 
 	typeName := named.Obj().Name()
 	pkg := named.Obj().Pkg()
-	if pkg == nil {
+	if pkg == nil || !util.IsPackageLevelType(named) {
 		return nil
 	}
 
@@ -240,7 +240,7 @@ func checkVarDeclaration(
 
 			typeName := named.Obj().Name()
 			pkg := named.Obj().Pkg()
-			if pkg == nil {
+			if pkg == nil || !util.IsPackageLevelType(named) {
 				continue
 			}
 
